@@ -159,7 +159,11 @@ func workerMain(args []string) {
 				sample, _ := json.Marshal(map[string]any{"workload": w.Name, "index": i, "case": json.RawMessage(cj), "event_log": o.Log, "log_hash": o.LogHash})
 				st.Samples[w.Name] = append(st.Samples[w.Name], sample)
 			}
-			if o.Class != "" {
+			if o.Class == "harness" {
+				if len(st.Mismatches) < 5 {
+					st.Mismatches = append(st.Mismatches, fmt.Sprintf("%s#%d harness trouble: %s", w.Name, i, o.Msg))
+				}
+			} else if o.Class != "" {
 				vj, _ := json.Marshal(violation{Workload: w.Name, Index: i, Class: o.Class, Msg: o.Msg})
 				fmt.Fprintf(out, "V %s\n", vj)
 			}
@@ -404,6 +408,13 @@ func verifDir() string {
 	return "/verif"
 }
 
+func outDir() string {
+	if d := os.Getenv("VERIF_OUT"); d != "" {
+		return d
+	}
+	return verifDir()
+}
+
 func runCaseMaybeIsolated(prop *Property, w *Workload, c any, isolated bool) Outcome {
 	if isolated || w.Isolated {
 		return runIsolated(prop, w, c, 10*time.Minute)
@@ -443,7 +454,7 @@ func reportViolation(prop *Property, tier string, seed int64, v violation) (stri
 	if rf.Msg == "" {
 		rf.Msg = v.Msg
 	}
-	dir := filepath.Join(verifDir(), "replays", prop.ID)
+	dir := filepath.Join(outDir(), "replays", prop.ID)
 	os.MkdirAll(dir, 0o755)
 	path := filepath.Join(dir, fmt.Sprintf("%s-%s-%d-%d.json", v.Class, w.Name, seed, v.Index))
 	rj, _ := json.MarshalIndent(rf, "", " ")
@@ -721,7 +732,7 @@ func firstLine(s string) string {
 
 func writeWitnessReplay(prop *Property, w *Workload, kf knownFinding, o Outcome, tier string, seed int64) string {
 	rf := replayFile{Property: prop.ID, Workload: w.Name, Tier: tier, Seed: seed, Index: -1, Class: o.Class, Msg: o.Msg, Case: kf.Case, LogHash: o.LogHash, Log: o.Log}
-	dir := filepath.Join(verifDir(), "replays", prop.ID)
+	dir := filepath.Join(outDir(), "replays", prop.ID)
 	os.MkdirAll(dir, 0o755)
 	path := filepath.Join(dir, fmt.Sprintf("%s-witness-%s.json", o.Class, kf.ID))
 	rj, _ := json.MarshalIndent(rf, "", " ")
@@ -764,8 +775,8 @@ func writeEvidence(prop *Property, tier string, seed int64, res *checkResult, wa
 		"probes":               res.stats.Probes,
 		"verdicts_not_taken":   res.stats.Skipped,
 		"determinism_recheck":  map[string]any{"reexecuted": res.stats.Rechecked, "mismatches": len(res.stats.Mismatches)},
-		"known_findings_printed": known,
-		"harness_trouble":      trouble,
+		"known_findings_printed": append([]string{}, known...),
+		"harness_trouble":      append([]string{}, trouble...),
 		"components":           prop.Components,
 		"distinct_measure_capped_at": shapeCap * 16,
 	}
@@ -780,7 +791,7 @@ func writeEvidence(prop *Property, tier string, seed int64, res *checkResult, wa
 		"violations":  nViol,
 	}
 	ej, _ := json.MarshalIndent(ev, "", " ")
-	dir := filepath.Join(verifDir(), "evidence")
+	dir := filepath.Join(outDir(), "evidence")
 	os.MkdirAll(dir, 0o755)
 	os.WriteFile(filepath.Join(dir, prop.ID+".json"), ej, 0o644)
 }
